@@ -325,6 +325,34 @@ namespace occa {
     return false;
   }
 
+  // Flattened dtypes are made of leaf types (anything but structs, tuples and unions).
+  // Two leaves are the same type if they are the same object or, for non-builtin
+  // types, if they have the same JSON form: custom types with the same name and
+  // size, enums with the same enumerators and size. Dtypes read back from JSON
+  // (kernel metadata in build.json) are always new objects
+  static bool isSameLeafDtype(const dtype_t &a_, const dtype_t &b_) {
+    const dtype_t &a = a_.self();
+    const dtype_t &b = b_.self();
+    if (&a == &b) {
+      return true;
+    }
+    const bool aIsBuiltin = ((&a != &dtype::none)
+                             && (&dtype_t::getBuiltin(a.name()) == &a));
+    const bool bIsBuiltin = ((&b != &dtype::none)
+                             && (&dtype_t::getBuiltin(b.name()) == &b));
+    if (aIsBuiltin || bIsBuiltin) {
+      return false;
+    }
+    if ((a.isEnum() != b.isEnum())
+        || (a.bytes() != b.bytes())) {
+      return false;
+    }
+    if (a.isEnum()) {
+      return (a.enumEnumeratorNames() == b.enumEnumeratorNames());
+    }
+    return (a.name() == b.name());
+  }
+
   bool dtype_t::canBeCastedTo(const dtype_t &other) const {
     const dtype_t &from = self();
     const dtype_t &to   = other.self();
@@ -359,7 +387,7 @@ namespace occa {
     }
 
     for (int i = 0; i < entries; ++i) {
-      if (fromVec[i] != toVec[i]) {
+      if (!isSameLeafDtype(*(fromVec[i]), *(toVec[i]))) {
         return false;
       }
     }
@@ -383,7 +411,7 @@ namespace occa {
       const dtype_t &dtype = *(vec[i]);
       for (int c = 1; c < cycles; ++c) {
         const dtype_t &dtype2 = *(vec[i + (c * cycleLength)]);
-        if (dtype != dtype2) {
+        if (!isSameLeafDtype(dtype, dtype2)) {
           return false;
         }
       }
